@@ -2,7 +2,8 @@
   Resolution of the `Parsed` field record into dates, times and date-times
   (src/format/parsed.rs: `resolve_year`, `to_naive_date`, `resolve_week_date`, `to_naive_time`,
   `to_naive_datetime_with_offset`, `to_fixed_offset`, `to_datetime`, `to_datetime_with_timezone`
-  for fixed-offset zones).  Property C14.
+  for fixed-offset zones; for an arbitrary `TimeZone` see Model/ParsedZone.lean, of which the
+  fixed-zone function here is an instance).  Property C14.
 
   The fields of `Parsed` are public, so every field can hold any value of its machine type
   (`i32` for the six year fields and the offset, `u32` for the others, `i64` for the timestamp);
@@ -348,7 +349,10 @@ def to_datetime (p : Parsed) : RP Zoned :=
     | .ok (some t) => .ok (.ok t)
 
 /-- `Parsed::to_datetime_with_timezone(&tz)` for `tz` a fixed offset `z` (`Utc`: `z = 0`):
-`offset_from_utc_datetime` is constant and `from_local_datetime` is `Single` or `None` -/
+`offset_from_utc_datetime` is constant and `from_local_datetime` is `Single` or `None`.  The
+timestamp test of the closure `check_offset` (added with the repair of finding F26) is omitted
+here: it always passes in a fixed zone — `Proofs.ParsedZone.fixed_is_instance` proves that this
+function equals the generic `to_datetime_with_timezone_gen` (Model/ParsedZone.lean), which has it. -/
 def to_datetime_with_timezone (p : Parsed) (z : Int) : RP Zoned :=
   RP.bind (match p.timestamp with
    | some timestamp =>
